@@ -96,8 +96,9 @@ class Gen:
         s = self.bases(n)
         st = sc['strategy']
         k = r.randrange(10)
-        if sc['trim'][m - 1] == 'skipT' and k < 7:
+        if sc['trim'][m - 1] == 'skipT' and (k < 7 or 'lead_T' in ctx):
             t = r.choice([0, 1, 2, 5, 12, n, max(0, n - 1)])
+            t = {'all': n, 'all_but_last': max(0, n - 1), 'one': 1}.get(ctx.get('lead_T'), t)
             t = min(t, n)
             s = 'T' * t + s[t:]
         elif st == 'CHICTV' and m == 1 and k == 9 and n >= len(OLIGO):
@@ -223,6 +224,8 @@ class Gen:
         lens = [self.length(sc, 1) if forced[0] is None else forced[0], self.length(sc, 2) if forced[1] is None else forced[1]]
         if long_enough:                                    # the case is about something else than the length: keep it acceptable
             lens = [max(lens[m], sc['ins'][m] + 24) for m in (0, 1)]
+        if ctx.get('ins_len') is not None:                 # an insert of exactly this many bases on the trimmed mate
+            lens = [sc['ins'][m] + ctx['ins_len'] if sc['trim'][m] == 'skipT' else lens[m] for m in (0, 1)]
         if nm_force is not None:
             nm = nm_force
         recs = []
@@ -490,7 +493,8 @@ def main():
             # 1b. one deterministic case per input/call class for every branch (long enough reads, exact barcode position)
             extras = [('hdr', 'numeric_index'), ('hdr', 'three_dec'), ('hdr', 'no_index'), ('hdr', 'seven_field'), ('hdr', 'unknown_index'),
                       ('three_records', None), ('unlisted_count', None), ('probe_true_fixed', None), ('probe_true', None),
-                      ('probe_false', None), ('probe_omit', None), ('empty_library', None), ('ambiguous', None), ('vasa_at_0', None), ('vasa_at_4', None)]
+                      ('probe_false', None), ('probe_omit', None), ('empty_library', None), ('ambiguous', None), ('vasa_at_0', None), ('vasa_at_4', None),
+                      ('lead_T_all', None), ('lead_T_all_but_last', None), ('lead_T_one', None), ('lead_T_all_len1', None), ('lead_T_all_len2', None)]
             for sc in scenarios:
                 st = sc['strategy']
                 if st not in strategies or (only and st not in only) or (inj and sc['wl'] not in INJECT):
@@ -516,6 +520,10 @@ def main():
                     if kind.startswith('vasa_at') and st != 'TCHIC':
                         continue
                     force = {'vasa_at': int(kind[-1])} if kind.startswith('vasa_at') else None
+                    if kind.startswith('lead_T'):
+                        if 'skipT' not in sc['trim']:
+                            continue
+                        force = {'lead_T': kind[7:].split('_len')[0], 'ins_len': int(kind[-1]) if '_len' in kind else None}
                     recs, nm, desc = gen.pair(sc, tid, hdr_kind=arg, nm_force=nm_force, long_enough=True, ambiguous=(kind == 'ambiguous'),
                                               force=force)
                     if kind == 'probe_true_fixed':
